@@ -99,10 +99,6 @@ prop("C22", "KT", "model_checking",
      text="(K) Kani/CBMC on the real Module: every special-mode operator accepted by FunctionModifier::inject_at / add_instr_at sets has_special_instr (so that encoding resolves it), for each special mode; empty block alternates too. (T) every accepted special-mode probe, issued through each of the five public API paths on the body family, must be present in the function the real encoder emits, and all paths must emit the same function; a rejected injection must be rejected by a panic at the call, not later.",
      technique="Kani/CBMC bounded model checking of the has_special_instr bookkeeping + presence / cross-path validation of the real encoder's output",
      outside="the iterator paths under Kani (out of memory; covered natively by engine T); " + T_OUT)
-prop("C26", "KT", "model_checking",
-     text="(K) Kani/CBMC on the real ComponentSubIterator: for 2 modules x 2 functions x <= 2 instructions with symbolic ids, counts, skip lists and both map insertion orders, the component walk equals the concatenation of the module-level walks. (T) the same plans issued through ComponentIterator and ModuleIterator produce identical encoded functions.",
-     technique="Kani/CBMC bounded model checking of ComponentSubIterator against the module-level walk + output equality of component vs module injection paths",
-     outside="Component::encode producing the same bytes for the untouched rest of the component (C27, not applicable); components with more than 2 modules; " + T_OUT)
 prop("C05", "KT", "model_checking",
      text="(K) Kani/CBMC on the real generic re-indexing code: a second recalculate_ids on an already re-organised index space (what a second encode() executes) must leave the entity order unchanged and map every already-rewritten reference to itself. (T) the real Module::encode is called twice on instrumented modules of the family and both outputs must be byte-identical.",
      technique="Kani/CBMC bounded model checking of the second re-indexing pass + byte equality of two consecutive real encodings over a bounded plan family",
